@@ -257,7 +257,7 @@ def render_hist_file(lines, dialect, fno, defs=True):
             f = ln["f"]
             if f == "dotted":
                 out += ["prb%d\tstruct" % i, "fa%d\t%s" % (i, dl["res"]), "fb%d\t%s" % (i, dl["res"]), "\tendstruct",
-                        "\t" + dl["byte"] % ("prb%d_fb%d+%d" % (i, i, i))]
+                        "\t" + dl["byte"] % ("DEFINED(prb%d_fb%d)+%d" % (i, i, 2 * i))]
             elif f == "relaxed":
                 out.append("\t" + dl["byte"] % ("RELAXED+%d" % (2 * i)))
             elif f == "padding":
